@@ -21,7 +21,7 @@ RULE = ('two glob stores with cells (timed ledger process whose timestep 0.5/0.7
         'operations applied, >=1 with a cell update in flight or a second-generation division, >=20 logged '
         'invocations; distinct = distinct case spec')
 PLAN = {'quick': {'n': 6000, 'min_cases': 400}, 'thorough': {'n': 60000, 'min_cases': 6000}}
-REQUIRED_ORACLES = ['no_exception', 'derivers_first_in_order', 'no_invocation_after_death', 'starts_at_creation', 'schedule_contiguous',
+REQUIRED_ORACLES = ['structural_ops_carried_out', 'no_exception', 'derivers_first_in_order', 'no_invocation_after_death', 'starts_at_creation', 'schedule_contiguous',
                     'steps_once_per_phase', 'derived_values', 'published_matches_hierarchy', 'composite_written_back',
                     'rebuilt_engine_continues']
 ANCHORS = ['vivarium.core.engine:Engine.apply_update', 'vivarium.core.engine:Engine._delete_path',
@@ -42,7 +42,7 @@ def gen(r, tier, i):
     flowless0 = r.random() < 0.2
     return {'cell_ts': r.choice([0.5, 1.0, 1.5, 0.75]), 'dir_as': 'process' if flowless0 else r.choice(['process', 'process', 'step']),
             'initial_flowless': flowless0, 'script': script, 'base': r.choice([[], [], ['env']]),
-            'deriver': r.choice([None, 'steps', 'processes']), 'viewers': r.random() < 0.3, 'poke': r.random() < 0.4, 'nested_cells': r.random() < 0.4, 'gen_legacy': r.random() < 0.3, 'dir_key': r.choice(['dir', 'dir', '0dir']), 'cell_rev': r.random() < 0.5,
+            'deriver': r.choice([None, 'steps', 'processes']), 'viewers': r.random() < 0.3, 'poke': r.random() < 0.4, 'nested_cells': r.random() < 0.4, 'gen_legacy': r.random() < 0.3, 'dir_key': r.choice(['dir', 'dir', '0dir']), 'cell_rev': r.random() < 0.5, 'dir_subtopo': r.random() < 0.25,
             'viewer_ts': 0.5, 'run': run_len, 'extra': 3.0}
 
 
@@ -237,6 +237,49 @@ def run(spec):
                             lambda: ('row at t=%r, cell %s: n=%r twice=%r quad=%r (steps did not see this batch / ran out of order)' % (
                                 t, key, st.get('n'), st.get('twice'), st.get('quad'))))
         prev_i, prev_w, prev_row = i, w, row
+    # every structural operation the directors issued was carried out: the first row after the batch that
+    # applies them shows it (keys touched by one operation of the batch only)
+    step_dir = spec['dir_as'] == 'step'
+    dir_ts = spec.get('dir_ts', 1.0)
+    batches = {}
+    for idx, ev in enumerate(m.events):
+        if ev[0] == 'struct':
+            batches.setdefault(ev[2], []).append((idx, ev[1]))
+    for t_dec, lst in batches.items():
+        first_idx = min(i for i, _ in lst)
+        due = t_dec if step_dir else t_dec + dir_ts
+        row_ev = next((e2 for j, e2 in enumerate(m.events) if j > first_idx and e2[0] == 'emit' and e2[1] == 'history'
+                       and e2[2] >= due), None)
+        if row_ev is None:
+            continue
+        node = row_ev[3]
+        for k in spec['base']:
+            node = node.get(k, {}) if isinstance(node, dict) else {}
+        ops = [op for _, oplist in lst for op in oplist]
+        touched = {}
+        for op in ops:
+            for key in ([op[2], op[2] + '0', op[2] + '1'] if op[0] == 'divide' else [op[2]]):
+                touched[key] = touched.get(key, 0) + 1
+        for op in ops:
+            kind, port, key = op[0], op[1], op[2]
+            keys = [key, key + '0', key + '1'] if kind == 'divide' else [key]
+            if any(touched[k] != 1 for k in keys):
+                continue
+            here = set((node.get(port) or {}).keys()) if isinstance(node, dict) else set()
+            if kind == 'delete':
+                okop = key not in here
+            elif kind in ('generate', 'add'):
+                okop = key in here
+            elif kind == 'divide':
+                okop = key not in here and key + '0' in here and key + '1' in here
+            elif kind == 'move':
+                there = set((node.get(op[3]) or {}).keys())
+                okop = key not in here and key in there
+            else:
+                continue
+            V.check('structural_ops_carried_out', okop,
+                    lambda: ('operation %r decided at t=%r is not reflected in the row at t=%r' % (op, t_dec, row_ev[2]),
+                             {p: sorted((node.get(p) or {}).keys()) for p in ('A', 'B')}))
     # structural ops and in-flight classification
     for ev in m.events:
         if ev[0] == 'struct':
